@@ -252,7 +252,9 @@ func mkCase(kind, beh string, ops []string) fw.Case {
 	return fw.Case{Input: sx.L(sx.A(kind), sx.A(beh), l).String(), Tags: []string{"kind=" + kind, "beh=" + beh, lt}}
 }
 
-// expensive reports schedules that are slow by construction (escalation timers, a reproduced hang).
+// expensive reports schedules that are slow by construction (escalation timers).
+// (Two STOPs after a child that died of a signal used to be here: a reproduced hang of 2 x 15 s, before
+// ensureBasicTaskKilled was repaired. They are ordinary schedules now and are all generated.)
 func expensive(kind, beh string, ops []string) bool {
 	if kind == "ctl" && (beh == "occign" || beh == "occstay") {
 		for _, o := range ops {
@@ -260,15 +262,6 @@ func expensive(kind, beh string, ops []string) bool {
 				return true
 			}
 		}
-	}
-	if beh == "sig" {
-		stops := 0
-		for _, o := range ops {
-			if o == "stop" {
-				stops++
-			}
-		}
-		return stops >= 2
 	}
 	return false
 }
@@ -330,7 +323,10 @@ func generate(tier string, r *rng.R) []fw.Case {
 		}
 		cs = append(cs, mkCase(kind, beh, ops))
 	}
-	cs = append(cs, mkCase("nodata", "ok", nil))
+	// a task without data: the launch is refused (TASK_FAILED), every later request finds no task
+	for _, ops := range allSchedules(exLen - 1) {
+		add("nodata", "ok", ops)
+	}
 	// every schedule up to exLen steps for basic and hook tasks, up to exLen-1 for controllable ones
 	for _, kind := range []string{"basic", "hook"} {
 		for _, beh := range basicBehs {
@@ -408,8 +404,8 @@ func init() {
 			"agent and REAL children (sh scripts that exit 0 / 3, die of a signal, fork a helper, cannot be started; for controllable tasks a " +
 			"child that never opens its port and fake OCC devices that exit at DONE / need SIGTERM / ignore TERM+INT / fork / exit 3). Schedules: every " +
 			"sequence of up to 2 (thorough 3) steps from {tick,start,stop,conf,trigger,kill,await} per basic/hook behaviour and up to 1 (thorough 2) " +
-			"per controllable behaviour, plus random ones of 3..7 (thorough 3..9) steps; schedules that are slow by construction (escalation timers, " +
-			"the reproduced hang) are capped at 6 (thorough 80) per run; observed: results of every step, UPDATE/MESSAGE calls in order, panic site, reproduced hang, survivors in the " +
+			"per controllable behaviour and for a task without data, plus random ones of 3..7 (thorough 3..9) steps; schedules that are slow by construction " +
+			"(escalation timers) are capped at 6 (thorough 80) per run; observed: results of every step, UPDATE/MESSAGE calls in order, panic site, reproduced hang, survivors in the " +
 			"process groups, signals received by the device. non-trivial = >=2 steps, a child was spawned and a stop/kill/await follows; distinct by input text",
 		Shrink: shrinkCands,
 		// wider search after a break: the quick stream under another seed (every case costs a process and >= 0.2 s)
@@ -425,7 +421,8 @@ func init() {
 			"Linux process/signal semantics, /bin/sh (dash)",
 		},
 		Assumptions: []string{
-			"asynchronous happenings are given a definite place in the schedule by the harness (tick = the 200 ms TASK_RUNNING timer, await = the child ends and is reaped); runs in which the timer fired out of place are discarded as inconclusive",
+			"asynchronous happenings are given a definite place in the schedule by the harness (tick = the 200 ms TASK_RUNNING timer, await = the child ends and is reaped); runs in which the timer fired out of place, or was already due when a KILL placed before it had been carried out, are discarded as inconclusive",
+			"that a carried-out KILL cancelled the TASK_RUNNING timer is observed as: no TASK_RUNNING within 800 ms of LAUNCH (4 x the timer's delay); a late TASK_RUNNING after that window would be missed by the run (not by the source fact basicKillStopsTimer)",
 			"emissions of the very step that crashes the executor are not compared (they race with the crash)",
 			"the fake OCC device obeys every transition of the teardown walk; a device that refuses (final TASK_KILLED path) is not exercised",
 			"log lines are used only as completion signals for handler paths that send nothing (no task, RPC down, non-hook trigger)",
